@@ -79,6 +79,9 @@ FAMILIES = [
     "alternating",      # <a><b><a>…</a>t</b>t</a>t              alternating names, trailing text
     "attrs_same",       # <a class="c">…</a>t                    identical attribute at every level, trailing text
     "attrs_distinct",   # <a id="k">…</a>t                       distinct attribute at every level, trailing text
+    "attrs_multi",      # <a class="c k" id="i">…</a>t            multi-valued + plain attributes at every level, trailing text
+    "chain_comment",    # <a><a>…</a><!--c--></a><!--c-->        a trailing comment (a special string class) at every level
+    "chain_entity",     # <a><a>…</a>a&amp;b&lt;c</a>…            trailing text that needs entity substitution at every level
     "repeated",         # <div><p>x</p> … <p>x</p></div>         identical sub-structure before and after every level
     "pre_chain",        # <pre><a><a>…</a>t</a>t</pre>            chain inside <pre> (popTag's == on the preserve stack)
     "pre_nested",       # <pre><pre>…</pre>t</pre>t               nested whitespace-preserving tags, trailing text
@@ -188,6 +191,24 @@ def family_events(fam: str, n: int):
         for k in range(n):
             c()
             t("t")
+    elif fam == "attrs_multi":
+        for k in range(n):
+            o("a", {"class": "c k", "id": "i"}, k)
+        for k in range(n):
+            c()
+            t("t")
+    elif fam == "chain_comment":
+        for k in range(n):
+            o("a", {}, k)
+        for k in range(n):
+            c()
+            ev.append(("t", "c", "Comment"))
+    elif fam == "chain_entity":
+        for k in range(n):
+            o("a", {}, k)
+        for k in range(n):
+            c()
+            t("a&b<c")
     elif fam == "attrs_distinct":
         for k in range(n):
             o("a", {"id": "i%d" % k}, k)
@@ -346,8 +367,10 @@ def events_markup(ev) -> str:
             nm = names.pop()
             if nm is not None and len(e) == 1:       # ("c", "implicit"): the end tag is missing from the markup
                 out.append("</%s>" % nm)
+        elif len(e) > 2 and e[2] == "Comment":
+            out.append("<!--%s-->" % e[1])
         else:
-            out.append(e[1])
+            out.append(e[1].replace("&", "&amp;").replace("<", "&lt;"))
     return "".join(out)
 
 
@@ -362,6 +385,8 @@ def attr_code(at: dict) -> int:
     key = json.dumps(at, sort_keys=True)
     if key == '{"class": "c"}':
         return 1
+    if key == '{"class": "c k", "id": "i"}':
+        return 2
     return ATTR_CODE.setdefault(key, 100 + len(ATTR_CODE))
 
 
@@ -374,7 +399,7 @@ def events_tokens(ev, builderless: bool) -> str:
         elif e[0] == "c":
             out.append("c" if len(e) == 1 else "ci")
         else:
-            out.append("t%d" % (1 if e[1] == "x" else 2))
+            out.append("t%d" % (1 if e[1] == "x" else 3 if len(e) > 2 else 2))
     return " ".join(out)
 
 
@@ -383,7 +408,7 @@ def events_tokens(ev, builderless: bool) -> str:
 # --------------------------------------------------------------------------------------
 class H:
     """handles into one built tree"""
-    __slots__ = ("soup", "root", "top", "mid", "inner", "levels", "elems", "markup", "n", "extra", "args", "cfg")
+    __slots__ = ("soup", "root", "top", "mid", "inner", "levels", "elems", "markup", "n", "extra", "args", "cfg", "deepstr")
 
 
 def _bs():
@@ -411,6 +436,7 @@ def build_raw(ev, builderless: bool) -> H:
         builder = soup.builder
     h.soup, h.root = soup, root
     stack = [root]
+    deepest = [0, None]
     prev = None if not builderless else root
     levels = []
     elems = [root]
@@ -427,7 +453,13 @@ def build_raw(ev, builderless: bool) -> H:
             if e[3] is not None:
                 levels.append(el)
         else:
-            el = NavigableString(e[1])
+            if len(e) > 2 and e[2] == "Comment":
+                from bs4.element import Comment
+                el = Comment(e[1])
+            else:
+                el = NavigableString(e[1])
+            if len(stack) >= deepest[0]:
+                deepest[0], deepest[1] = len(stack), el
         elems.append(el)
         d = el.__dict__
         d["parent"] = parent
@@ -450,6 +482,7 @@ def build_raw(ev, builderless: bool) -> H:
     h.levels, h.elems = levels, elems
     h.n = len(levels)
     h.top, h.inner, h.mid = levels[0], levels[-1], levels[len(levels) // 2]
+    h.deepstr = deepest[1]
     return h
 
 
@@ -547,6 +580,17 @@ def _consume(it):
     for _ in it:
         n += 1
     return n
+
+
+def _api_build(h):
+    """the same nesting built through the API, top down: new_tag + append at every level, a trailing string after each"""
+    cur = _new_tag(h, "a")
+    for _ in range(h.n):
+        nxt = _new_tag(h, "a")
+        cur.append(nxt)
+        cur.append("t")
+        cur = nxt
+    return cur
 
 
 def _op_smooth(h):
@@ -942,6 +986,28 @@ OPS = {
     "tw_find_all": ("tree", lambda h: h.mid.find_all(h.mid.name), _prep_twins),
     "tw_find_next_siblings": ("tree", lambda h: h.mid.find_next_siblings(h.mid.name), _prep_twins),
     "tw_copy_parent": ("tree", lambda h: __import__("copy").copy(h.args["parent"]), _prep_twins),
+    "nc_extend_tag": ("tree", lambda h: h.mid.extend(h.args["A"]), _prep_a),
+    # a string deep in the tree as the receiver
+    "str_extract": ("tree", lambda h: h.deepstr.extract()),
+    "str_replace_with": ("tree", lambda h: h.deepstr.replace_with("s", _new_tag(h))),
+    "str_insert_before": ("tree", lambda h: h.deepstr.insert_before(_new_tag(h))),
+    "str_insert_after": ("tree", lambda h: h.deepstr.insert_after("s")),
+    "str_wrap": ("tree", lambda h: h.deepstr.wrap(_new_tag(h))),
+    "str_find_parents": ("tree", lambda h: h.deepstr.find_parents("a")),
+    "str_find_parent": ("tree", lambda h: h.deepstr.find_parent("zzz")),
+    "str_find_all_previous": ("tree", lambda h: h.deepstr.find_all_previous("a")),
+    "str_find_next": ("tree", lambda h: h.deepstr.find_next("zzz")),
+    "str_get_text": ("tree", lambda h: (h.deepstr.get_text(), _consume(h.deepstr.strings), h.deepstr.text)),
+    "str_output_ready": ("tree", lambda h: (h.deepstr.output_ready("html"), h.deepstr.output_ready())),
+    "str_copy": ("tree", lambda h: __import__("copy").copy(h.deepstr)),
+    "str_decompose": ("tree", lambda h: h.deepstr.decompose()),
+    # an edit, then the whole tree is worked with again (the measured call includes both)
+    "after_move_decode": ("tree", lambda h: (h.top.append(h.mid), h.top.decode(), h.top.get_text())),
+    "after_wrap_decode": ("tree", lambda h: (h.mid.wrap(_new_tag(h)), h.top.prettify(), h.top.find_all("a", string="x"))),
+    "after_unwrap_copy": ("tree", lambda h: (h.mid.unwrap(), __import__("copy").copy(h.top))),
+    "after_replace_decode": ("tree", lambda h: (h.mid.replace_with(h.args["A"]), h.top.decode(), h.top.smooth()), _prep_a),
+    "api_build": ("tree", lambda h: _api_build(h)),
+    "doc_pickle_proto2": ("doc", lambda h: __import__("pickle").loads(__import__("pickle").dumps(h.soup, protocol=2))),
     # small protocol methods
     "len_bool_iter": ("tree", lambda h: (len(h.top), bool(h.top), _consume(iter(h.top)))),
     "contains_str": ("tree", lambda h: "zzz" in h.top),
@@ -966,8 +1032,10 @@ LINKED_OPS = {"doc_pickle_insert0", "doc_pickle_copy", "doc_pickle_py_insert0", 
 def receiver(op: str) -> str:
     if OPS[op][0] in ("markup", "doc") or op == "insert0_root":
         return "root"
-    if op.startswith(("nc_", "tw_")):
+    if op.startswith(("nc_", "tw_", "after_")):
         return "top" if op == "nc_replace_with_top" else "mid"
+    if op.startswith("str_"):
+        return "inner"
     return "mid" if op in MID_OPS else "inner" if op in INNER_OPS else "top"
 
 
@@ -987,6 +1055,8 @@ def applicable(op: str, fam: str, build: str) -> bool:
     kind = OPS[op][0]
     if is_markup_only(fam):
         return build == "parsed" and kind in ("markup", "doc")
+    if op == "api_build":
+        return fam in ("chain", "builderless") and build == "raw"
     if fam == "builderless":
         if build != "raw" or kind in ("markup", "doc"):
             return False
@@ -1137,6 +1207,14 @@ if __name__ == "__main__" and "--worker" in sys.argv:
 HISTORY_FAMILIES_QUICK = ("chain", "chain_text", "chain_sibling", "attrs_same", "repeated", "twins", "pre_nested", "builderless")
 
 
+# quick tier: these tree families run the core operations only (thorough: everything)
+LIGHT_FAMILIES_QUICK = ("attrs_multi", "chain_comment", "chain_entity", "chain_void", "lead_text", "alternating", "attrs_distinct",
+                        "pre_chain", "rt_nested")
+CORE_OPS = ("decode", "decode_mid", "prettify", "encode", "hash", "copy", "deepcopy", "copy_mid", "get_text", "stripped_strings",
+            "string_getter", "find_all_name_string", "find_all_attrs_string", "find_all", "find_parents", "find_all_next", "smooth",
+            "extract_mid", "append_inner", "insert_after_inner", "insert_before_inner", "replace_with_mid", "unwrap_mid", "wrap_mid",
+            "decompose_mid", "clear_top", "string_setter_mid", "move_subtree", "extend_mid", "index", "str_extract", "str_replace_with",
+            "str_find_parents", "str_output_ready", "str_wrap", "after_move_decode", "after_unwrap_copy", "eq_copy")
 HISTORY_OPS_QUICK_RANDOM = ("nc_replace_with", "nc_insert_before", "nc_append_to_parent", "nc_wrap_in_copy", "tw_index", "tw_extract",
                             "tw_replace_with_sibling", "tw_decode", "tw_smooth", "tw_insert_after")
 
@@ -1145,6 +1223,8 @@ def _jobs_for(fam: str, thorough: bool = True):
     jobs = []
     for op, v in OPS.items():
         kind = v[0]
+        if not thorough and fam in LIGHT_FAMILIES_QUICK and kind in ("tree", "rec") and op not in CORE_OPS:
+            continue
         if not thorough and op.startswith(("nc_", "tw_")):
             if fam.startswith("random:"):
                 if op not in HISTORY_OPS_QUICK_RANDOM:
